@@ -20,7 +20,7 @@ RULE = (
     "raise; the same for categories registered at run time under the name of another quantity type. (d) generated sequences interleaving such rejected calls with valid operations on a pool: after every "
     "rejected call the full registry snapshot (all public getters + both conversion functions sampled), every pool "
     "object's snapshot, the soundness of the memoised verdicts/cached quantities and the results of a fixed battery of "
-    "valid operations are identical. Non-trivial = the two dimension vectors share a quantity type or a unit-symbol "
+    "valid operations are identical. Units used without a category before their default category is re-bound to another quantity type are rejected afterwards in the category-less forms too. Non-trivial = the two dimension vectors share a quantity type or a unit-symbol "
     "prefix (near miss); key = (route, dims a, dims b) resp. (route, unit, target)."
 )
 ASSUMPTIONS = [
@@ -597,9 +597,25 @@ def run_renamed_categories(spec, ctx):
         for X, Y in pairs:
             if X == Y or X not in db.quantity_types or Y not in db.quantity_types:
                 continue
-            db.AddCategory(X, Y, override=True)
             ux = [i.unit for i in db.quantity_types[X]][:6]
             uy = [i.unit for i in db.quantity_types[Y]][:3]
+            # the units of X are used once *without* a category before X is re-bound (their default category is X): what
+            # such a lookup left behind must not answer for the old definition afterwards
+            from barril.units import Array, ObtainQuantity
+
+            primed = []
+            for u in ux:
+                try:
+                    if db.GetDefaultCategory(u) == X:
+                        Scalar(1.0, u), ObtainQuantity(u)
+                        primed.append(u)
+                except Exception:
+                    pass
+            db.AddCategory(X, Y, override=True)
+            for u in primed:
+                case = {"kind": "renamed", "X": X, "Y": Y, "u": u}
+                for route, fn in (("Scalar(v,u) without category", lambda: Scalar(1.0, u)), ("Scalar((v,u))", lambda: Scalar((1.0, u))), ("Array(values,u) without category", lambda: Array([1.0], u)), ("ObtainQuantity(u)", lambda: ObtainQuantity(u))):
+                    must_raise_rec(ctx, "category_less_form_after_its_default_category_was_rebound:" + route, case, fn, "%s with u=%r after AddCategory(%r, %r, override=True)" % (route, u, X, Y))
             for u in uy:
                 ctx.ev()
                 try:
